@@ -1394,7 +1394,11 @@ impl<'a, 'b, W: Write> Serializer for &'a mut YamlSerializer<'b, W> {
         // Emit the variant mapping on the next line indented one level. Also, do not insert
         // a space after the colon when the value may itself be a mapping; instead, defer
         // space insertion to the value serializer via pending_space_after_colon.
-        if self.pending_space_after_colon {
+        let in_value_position = self.pending_space_after_colon;
+        // A pending anchor belongs to the whole `Variant: value` mapping, not to the value: it is
+        // written first and the mapping starts on the next line.
+        let anchored = self.write_anchor_before_complex_node()?;
+        if in_value_position {
             // consume the pending space request and start a new line
             self.pending_space_after_colon = false;
             self.newline()?;
@@ -1421,7 +1425,12 @@ impl<'a, 'b, W: Write> Serializer for &'a mut YamlSerializer<'b, W> {
             return res;
         }
         // Otherwise (top-level or sequence context).
-        if self.at_line_start {
+        // SeqSer stores the dash's indentation depth in `after_dash_depth`.
+        let dash_depth = self.after_dash_depth.take();
+        if anchored {
+            self.newline()?;
+            self.write_indent(dash_depth.map_or(self.depth, |d| d + 1))?;
+        } else if self.at_line_start {
             self.write_indent(self.depth)?;
         }
         let prev_parent_col = self.block_parent_col.replace(self.out.col);
@@ -1435,8 +1444,7 @@ impl<'a, 'b, W: Write> Serializer for &'a mut YamlSerializer<'b, W> {
         self.pending_inline_map = false;
         // If this variant is inside a block sequence element (`- Variant:`), ensure the nested
         // value indents under the variant label rather than aligning with the list indentation.
-        // SeqSer stores the dash's indentation depth in `after_dash_depth`.
-        let res = if let Some(d) = self.after_dash_depth.take() {
+        let res = if let Some(d) = dash_depth {
             let prev_map_depth = self.current_map_depth.replace(d + 1);
             let res = value.serialize(&mut *self);
             self.current_map_depth = prev_map_depth;
@@ -1708,7 +1716,11 @@ impl<'a, 'b, W: Write> Serializer for &'a mut YamlSerializer<'b, W> {
         // on the same line (e.g., "key: Variant:"). Move the variant mapping to the next line
         // indented under the parent mapping's base depth.
         let _was_inline_value = !self.at_line_start;
-        if self.pending_space_after_colon {
+        let in_value_position = self.pending_space_after_colon;
+        // A pending anchor belongs to the whole variant mapping: it is written first and the
+        // mapping starts on the next line.
+        let anchored = self.write_anchor_before_complex_node()?;
+        if in_value_position {
             // Value position after a map key: start the variant mapping on the next line.
             self.pending_space_after_colon = false;
             self.newline()?;
@@ -1726,7 +1738,11 @@ impl<'a, 'b, W: Write> Serializer for &'a mut YamlSerializer<'b, W> {
             });
         }
         // Otherwise (top-level or sequence context), emit the variant name at current depth.
-        if self.at_line_start {
+        let dash_depth = self.after_dash_depth.take();
+        if anchored {
+            self.newline()?;
+            self.write_indent(dash_depth.map_or(self.depth, |d| d + 1))?;
+        } else if self.at_line_start {
             self.write_indent(self.depth)?;
         }
         self.write_plain_or_quoted(variant)?;
@@ -1735,7 +1751,7 @@ impl<'a, 'b, W: Write> Serializer for &'a mut YamlSerializer<'b, W> {
         // Default indentation for fields under a plain variant line.
         let mut depth_next = self.depth + 1;
         // If this variant follows a list dash, indent two levels under the dash (one for the element, one for the mapping).
-        if let Some(d) = self.after_dash_depth.take() {
+        if let Some(d) = dash_depth {
             depth_next = d + 2;
             self.pending_inline_map = false;
         }
